@@ -34,9 +34,13 @@ type vfC16Case struct {
 
 func vfC16Run(cs vfC16Case) string {
 	t := newTransfer(io.Discard, nil, false, nil)
-	if cs.Mode == "win" {
+	junkParam := false
+	switch cs.Mode {
+	case "win":
 		t.windowsProtocol = true
-	} else {
+	case "tmuxhs":
+		junkParam = true // the handshake lines (ACT on the server, CFG on the client) are read junk-tolerantly before any config is known
+	default:
 		t.transferConfig.TmuxOutputJunk = true
 	}
 	for _, ch := range vfChunks(cs.Stream, cs.Cuts) {
@@ -52,7 +56,7 @@ func vfC16Run(cs vfC16Case) string {
 	}
 	for i, ln := range cs.Lines {
 		timeout := time.NewTimer(3 * time.Second)
-		got, err := t.recvLine(ln.Type, false, timeout.C)
+		got, err := t.recvLine(ln.Type, junkParam, timeout.C)
 		timeout.Stop()
 		if cs.CtrlC && i == cs.CtrlCLn {
 			if err == nil || err.Error() != "Interrupted" {
@@ -326,7 +330,7 @@ func (b *vfC16Builder) tmuxLine(payload string, ctrlCAt int) {
 
 func vfGenC16(rt *rapid.T) vfC16Case {
 	var cs vfC16Case
-	cs.Mode = rapid.SampledFrom([]string{"tmux", "win"}).Draw(rt, "mode")
+	cs.Mode = rapid.SampledFrom([]string{"tmux", "win", "tmux", "win", "tmuxhs"}).Draw(rt, "mode")
 	allowF12 := !vfKnown("F12") // while F12 is a listed finding its shape is excluded by construction (and counted)
 	b := &vfC16Builder{rt: rt, kinds: map[string]bool{}}
 	nlines := rapid.IntRange(1, 3).Draw(rt, "nlines")
